@@ -2,7 +2,7 @@
 from ..facts import Program, loc
 from ..run import Check, AnalysisBroken
 from ..rules import r3_dispatch as r3, r9_sibling
-from ..rules.effects import Effects
+from ..rules.effects import PathEffects as Effects
 from ..rules.r3_dispatch import ptr_desc
 from . import _drv
 from ._drv import Flags, Expect, ppos
